@@ -477,11 +477,20 @@ pub fn addze(
     let block_index = {
         let block = control_flow_graph.new_block()?;
 
-        let src = Expression::add(
-            lhs.clone(),
-            Expression::zext(lhs.bits(), expr_scalar("carry", 1))?,
-        )?;
-        block.assign(dst, src);
+        let sum = Scalar::temp(instruction.address, 32);
+        block.assign(
+            sum.clone(),
+            Expression::add(
+                lhs.clone(),
+                Expression::zext(lhs.bits(), expr_scalar("carry", 1))?,
+            )?,
+        );
+        // CA is the carry out of the addition: the sum wrapped around
+        block.assign(
+            scalar("carry", 1),
+            Expression::cmpltu(sum.clone().into(), lhs)?,
+        );
+        block.assign(dst, sum.into());
 
         block.index()
     };
@@ -1084,6 +1093,16 @@ pub fn srawi(
     let block_index = {
         let block = control_flow_graph.new_block()?;
 
+        // CA is set when a negative value loses one-bits on the right
+        let shift = detail.operands[2].imm() as u64 & 0x1f;
+        let lost = Expression::and(lhs.clone(), expr_const((1u64 << shift) - 1, 32))?;
+        block.assign(
+            scalar("carry", 1),
+            Expression::and(
+                Expression::cmplts(lhs.clone(), expr_const(0, 32))?,
+                Expression::cmpneq(lost, expr_const(0, 32))?,
+            )?,
+        );
         block.assign(dst, Expression::sra(lhs, rhs)?);
 
         block.index()
